@@ -276,6 +276,39 @@ func ruleConv(c *Ctx) {
 			var walk func(e ast.Expr)
 			walk = func(e ast.Expr) {
 				e = unparen(e)
+				// a predicate of the same package over the kind: the kinds for which it answers true
+				if pc, ok := e.(*ast.CallExpr); ok && len(pc.Args) == 1 {
+					if f, ok := c.calleeObj(pc).(*types.Func); ok && f.Pkg() != nil && short(f.Pkg().Path()) == "conv" {
+						if pd := c.declOf(f); pd != nil && pd.Body != nil {
+							for _, r := range returnsOf(pd.Body) {
+								if len(r.Results) == 1 {
+									if v := c.constOf(r.Results[0]); v == nil {
+										walk(r.Results[0])
+									}
+								}
+							}
+							inspectNoLit(pd.Body, func(y ast.Node) bool {
+								cc, ok := y.(*ast.CaseClause)
+								if !ok || len(cc.Body) != 1 {
+									return true
+								}
+								if r, ok := cc.Body[0].(*ast.ReturnStmt); ok && len(r.Results) == 1 {
+									if v := c.constOf(r.Results[0]); v != nil && v.Kind() == constant.Bool && constant.BoolVal(v) {
+										for _, ce := range cc.List {
+											if kv := c.constOf(ce); kv != nil {
+												if k, ok := constant.Int64Val(constant.ToInt(kv)); ok {
+													covered[k] = true
+												}
+											}
+										}
+									}
+								}
+								return true
+							})
+						}
+					}
+					return
+				}
 				if b, ok := e.(*ast.BinaryExpr); ok {
 					if b.Op == token.LOR {
 						walk(b.X)
